@@ -158,7 +158,7 @@ def run_definition(ctx, P):
             if xv is not None:
                 c.indicators["X"] = xv
         kw2["input_value"] = "X"
-    ind = build(name, kw2, candles=cs, round_value=RV)
+    ind = build(name, kw2, candles=cs, round_value=RV, **(P.get("extra") or {}))
     ind.calculate()
     got = ind.as_list()
     ctx.observe("readings", got)
